@@ -67,14 +67,14 @@ def gen_conditional(r, p, env, indent, depth):
     form = r.choice(["if", "if", "if_else", "if_else", "unless", "unless_else", "and", "and", "and_else", "same_twice", "elsif", "elsif", "and_elsif"])
     if form in ("and", "and_else", "and_elsif") and len(vars_) < 2:
         form = "if_else"
-    def body(types, note):
+    def body(types, note, ctx_env=None):
         for v in sorted(types):
             if types[v]:
                 p.probe(v, types[v], indent + 1, note)
         if r.random() < 0.5:
             p.add("t%d = %s" % (len(p.lines), r.choice(["1", '"z"', "[1]"])), indent + 1)
         if depth < 2 and r.random() < 0.35:
-            inner = dict(env)
+            inner = dict(ctx_env or env)
             inner.update(types)
             gen_conditional(r, p, inner, indent + 1, depth + 1)
             for v in sorted(types):
@@ -106,6 +106,18 @@ def gen_conditional(r, p, env, indent, depth):
         tests = [(v, cs[0], True), (v, cs[1], True)] if len(env[v]) >= 3 else [(v, cs[0], True), (v, cs[0], True)]
         p.add("if " + " && ".join(test_text(t) for t in tests), indent)
         body({v: admit(env[v], tests)}, form + "/then")
+        p.add("end", indent)
+    elif form in ("elsif", "and_elsif") and len(vars_) >= 2 and r.random() < 0.5:
+        # every branch tests a variable of its own choice; a variable tested in an elsif only must be restored as well
+        remaining = {v: list(env[v]) for v in vars_}
+        n = r.choice([2, 3])
+        for i in range(n):
+            v = r.choice([x for x in vars_ if remaining[x]])
+            t = gen_test(r, v, remaining[v])
+            p.add(("if " if i == 0 else "elsif ") + test_text(t), indent)
+            then = admit(remaining[v], [t])
+            body({v: then}, "elsif_mixed" + ("/then" if i == 0 else "/elsif%d" % i), ctx_env=dict(env, **remaining))
+            remaining[v] = [c for c in remaining[v] if c not in then]
         p.add("end", indent)
     else:   # elsif chains
         v = r.choice(vars_)
